@@ -427,9 +427,25 @@ func repRunCase(id string, in bhInput, gen *bhGenerator, pg *procGen, nrep int, 
 	}
 	obs.Perturbed, obs.PerturbErrs = plog.Counts, plog.Errs
 	c := Case{ID: id, Kind: "replicas", Input: in}
-	if len(bh) > 0 {
+	// the closed formula of the model is for a constant HistoricalEntries: histories that change the staking
+	// parameter on the way are compared between replicas only
+	histConst := true
+	for _, b := range in.Blocks {
+		for _, t := range b.Txs {
+			if t.K == "param" && t.S == "staking" {
+				for _, kv := range t.X {
+					if len(kv) > 0 && kv[0] == "HistoricalEntries" {
+						histConst = false
+					}
+				}
+			}
+		}
+	}
+	if len(bh) > 0 && histConst {
 		c.Coq, obs.BHChecked = coqBhCase(entries, bh)
 		c.CoqList = "bh"
+	} else if !histConst {
+		c.Tags = append(c.Tags, "historical-entries-changed-on-the-way")
 	}
 	c.Obs = obs
 	c.OracleOK = len(obs.Divergences) == 0 && obs.ChildErr == ""
@@ -438,6 +454,20 @@ func repRunCase(id string, in bhInput, gen *bhGenerator, pg *procGen, nrep int, 
 		c.OracleMsg = fmt.Sprintf("replicas disagree at height %d (block index %d of the replay) on %s: leader %s, %s %s", d.Height, d.Height-1, d.What, d.Leader, d.Replica, d.Other)
 	} else if obs.ChildErr != "" {
 		c.OracleMsg = "the separate-process replica failed: " + obs.ChildErr
+	}
+	// K17 seen from C01: the replica that evaluates the crisis invariants every block (node-local inv-check-period)
+	// halts on the torn distribution records while the others go on; attributed only for that exact divergence
+	if len(obs.Divergences) > 0 && bhToleratedPrecompileShape(in) {
+		all := true
+		for _, d := range obs.Divergences {
+			// "cannot set negative reference count" is x/distribution's panic, raised here by the crisis EndBlocker
+			if d.What != "panic" || d.Leader != "" || !strings.Contains(d.Other, "EndBlock panic: cannot set negative reference count") {
+				all = false
+			}
+		}
+		if all {
+			c.Class = classTornPrecompile
+		}
 	}
 	if obs.Panic != "" && c.OracleOK {
 		// all replicas halted identically: deterministic, but worth a tag
